@@ -226,6 +226,20 @@ let c07 (w : string list) : string =
         | Panic _ -> "panic")
      | Err _ -> "err new"
      | Panic _ -> "panic")
+  | "rt2" :: kind :: d :: p :: g :: words :: seed :: kd :: kps ->
+    let d = int_of_string d and p = int_of_string p and g = int_of_string g in
+    let words = int_of_string words and seed = int_of_string seed in
+    (match new_coder (ckind_of kind) (z_of_int d) (z_of_int p) (z_of_int g) with
+     | Ok c ->
+       let data = List.init d (fun i -> words_of_bytes (gen_bytes "rand" (seed + i) (2 * words))) in
+       let parity = gen_parity c data in
+       "rt2" ^ String.concat "" (List.map (fun kp ->
+         match reconstruct c (erase (mask_of kd) data) (erase (mask_of kp) parity) with
+         | Ok r -> if r = data then " ok-exact" else " ok-WRONG"
+         | Err ENotEnoughParity -> " notenough"
+         | Err _ -> " other"
+         | Panic _ -> " panic") kps)
+     | _ -> "err new")
   | _ -> failwith "c07: bad command"
 
 (* ---- C12 ---- *)
